@@ -504,6 +504,8 @@ func c05boundary() []c05case {
 				sb.Reset()
 				fmt.Fprintf(&sb, "return (%s) %s (%s)", l, op, r)
 				cs = append(cs, c05case{name: "fold " + sb.String(), src: sb.String()})
+				bare := fmt.Sprintf("return %s %s %s", l, op, r)
+				cs = append(cs, c05case{name: "fold " + bare, src: bare})
 			}
 		}
 	}
